@@ -85,8 +85,7 @@ Proof.
   intros R Ht Hp Hc.
   pose proof (impl_idle c cs st ls s F R t th Ht ltac:(rewrite Hp; reflexivity) (c_lk (cfg th))) as Hid.
   unfold step. cbn [l_tid l_fault l_bit]. unfold thread_at in Ht. rewrite Ht.
-  destruct th as [cf q ? cn ? ? ? ? ? ? ?]; cbn in Hp, Hc, Hid |- *; subst q; subst cn.
-  unfold tstep, norm_pc, mark; cbn. unfold exec; cbn.
+  unfold tstep, norm_pc, mark; cbn [tpc]. rewrite Hp. cbn [exec cfg canc fault_eqb orb]. rewrite Hc. cbn [orb].
   eexists. eexists. split; [reflexivity|]. split; [reflexivity|]. cbn [FL.step]. rewrite Hid. reflexivity.
 Qed.
 
